@@ -1,6 +1,6 @@
 SPECIFICATION MCSpec
 CONSTANTS
-  MaxLen = 6
+  MaxLen = 5
   Alpha = "mixed"
 INVARIANTS CursorExact PositionExact HtmlExact Coverage NoDelimIdentity TokensOrdered VerbatimLiteral TrimFlags NoStuck Emit
 PROPERTIES Progress
